@@ -241,11 +241,13 @@ class Frame:
         self.ret_bb = ret_bb
         self.body = body
         self.visits = {}
+        self.gargs = ()  # generic arguments of the call that created the frame (as written at the call site)
 
     def __deepcopy__(self, memo):
         f = Frame(self.mir, copy.deepcopy(self.env, memo), copy.deepcopy(self.dest, memo), self.ret_bb, self.body)
         f.bi = self.bi
         f.visits = dict(self.visits)
+        f.gargs = self.gargs
         return f
 
 
@@ -327,6 +329,7 @@ class Engine:
         if models:
             self.models.update(models)
         self.loop_limit = loop_limit
+        self.redirect = {}
         self.max_paths = max_paths
         self.max_depth = max_depth
         self.enum_tables = {}
@@ -455,6 +458,13 @@ class Engine:
             return AggV("float", {0: K(int(c["fbits"])), 1: K(c["fwidth"])})
         if "zst" in c:
             return UNIT
+        if "def" in c and not c.get("defargs"):
+            # a named constant of aggregate type: evaluate its (straight-line) initialiser
+            b = self.find_body(self.unit_qual(fr, strip_generics(c["def"]))) or self.find_body(strip_generics(c["def"]))
+            if b is not None and b.bkind == "const":
+                v = self.eval_promoted(b.mir)
+                if v is not None:
+                    return copy.deepcopy(v)
         return TOP
 
     def eval_promoted(self, pm):
@@ -876,6 +886,15 @@ class Engine:
     def do_call(self, st, fr, t, name, rname, args, dest, target):
         c = t["callee"] if t is not None else {}
         line = t.get("line") if t is not None else "?"
+        # documented wiring of user-provided trait methods to library defaults
+        red = self.redirect.get(rname) or self.redirect.get(name)
+        if red is not None and len(st.frames) < self.max_depth:
+            body = self.find_body(red)
+            if body is not None:
+                st.trace.append(Event("enter", red, red, tuple(snapshot(a) for a in args), fr.bi, line, len(st.frames), fr.body.npath if fr.body else "?"))
+                nf = self.push_frame(st, body, args, dest, target)
+                nf.gargs = tuple(c.get("resolved_gargs") or c.get("gargs") or ())
+                return [st]
         # 1. closures called through Fn* traits
         if name.endswith(("FnOnce::call_once", "FnMut::call_mut", "Fn::call")) and args:
             f = self.resolve(st, args[0])
@@ -900,7 +919,8 @@ class Engine:
             body = self.find_body(rname) or self.find_body(name)
             if body is not None and body.kind != "Closure":
                 st.trace.append(Event("enter", name, rname, tuple(snapshot(a) for a in args), fr.bi, line, len(st.frames), fr.body.npath if fr.body else "?"))
-                self.push_frame(st, body, args, dest, target)
+                nf = self.push_frame(st, body, args, dest, target)
+                nf.gargs = tuple(c.get("resolved_gargs") or c.get("gargs") or ())
                 return [st]
         # 4. event
         st.trace.append(Event("call", name, rname, tuple(snapshot(a) for a in args), fr.bi, line, len(st.frames), fr.body.npath if fr.body else "?", extra={"gargs": tuple(c.get("gargs", ())), "self_ty": c.get("self_ty")}))
@@ -1419,6 +1439,22 @@ def m_unwrap_or_default(eng, st, fr, t, name, rname, args):
     if isinstance(v, EnumV) and v.name in ("Some", "Ok"):
         return v.fields.get(0, TOP)
     if isinstance(v, EnumV) and v.name in ("None", "Err"):
+        # T::default() of a workspace type: evaluate its Default impl when it is a plain constructor
+        g = tuple(t["callee"].get("gargs") or ()) if t is not None else ()
+        ty = g[0] if g else None
+        if ty in _INT_RANGE:
+            return K(0)
+        if ty == "bool":
+            return K(False)
+        if ty:
+            want = strip_generics(ty).split("::")[-1]
+            for key, b in eng._bodies.items():
+                if key.startswith("dpath:") or b.name != "default" or "default::Default" not in (b.impl_trait or ""):
+                    continue
+                if strip_generics(b.impl_self or "").split("::")[-1] == want:
+                    res = eng.call_closure(st, fr, FnV(b.npath), [], t)
+                    if res:
+                        return res
         return AggV("Default::default", {})
     return NotImplemented
 
@@ -1436,6 +1472,37 @@ def m_unwrap_or_else(eng, st, fr, t, name, rname, args):
 
 def m_deref_id(eng, st, fr, t, name, rname, args):
     return args[0]
+
+
+def m_mem_replace(eng, st, fr, t, name, rname, args):
+    r = eng.resolve(st, args[0])
+    if not isinstance(r, RefV):
+        return NotImplemented
+    old = eng.resolve(st, load(Loc(r.cell, r.path)))
+    store(Loc(r.cell, r.path), args[1])
+    return old
+
+
+def m_mem_swap(eng, st, fr, t, name, rname, args):
+    a = eng.resolve(st, args[0])
+    b = eng.resolve(st, args[1])
+    if not (isinstance(a, RefV) and isinstance(b, RefV)):
+        return NotImplemented
+    va = load(Loc(a.cell, a.path))
+    vb = load(Loc(b.cell, b.path))
+    store(Loc(a.cell, a.path), vb)
+    store(Loc(b.cell, b.path), va)
+    return UNIT
+
+
+def m_mem_take_int(eng, st, fr, t, name, rname, args):
+    r = eng.resolve(st, args[0])
+    g = tuple(t["callee"].get("gargs") or ())
+    if not isinstance(r, RefV) or not g or g[0] not in _INT_RANGE:
+        return NotImplemented
+    old = eng.resolve(st, load(Loc(r.cell, r.path)))
+    store(Loc(r.cell, r.path), K(0))
+    return old
 
 
 def m_clone(eng, st, fr, t, name, rname, args):
@@ -1494,4 +1561,7 @@ DEFAULT_MODELS = {
     "core::ops::Deref::deref": m_deref_id,
     "core::ops::DerefMut::deref_mut": m_deref_id,
     "core::clone::Clone::clone": m_clone,
+    "core::mem::replace": m_mem_replace,
+    "core::mem::swap": m_mem_swap,
+    "core::mem::take": m_mem_take_int,
 }
